@@ -65,15 +65,27 @@ class Lock:
 # build steps
 
 def build_harness(tag="verif"):
-    """Always rebuilds from /repo's current working tree (go's build cache keys on file contents)."""
+    """Always rebuilds from the repo's current working tree (go's build cache keys on file contents).
+    OW_REPO=<dir> (scratch copies for seeded-change experiments) builds a copy of the harness module whose
+    replace directive points there."""
     os.makedirs(BUILD, exist_ok=True)
+    hdir = HARNESS
     out = os.path.join(BUILD, "owharness")
-    with Lock("gobuild"):
-        gosum = os.path.join(HARNESS, "go.sum")
-        shutil.copyfile(os.path.join(REPO, "go.sum"), gosum)
+    if os.path.realpath(REPO) != "/repo":
+        import hashlib
+        tagd = hashlib.sha1(os.path.realpath(REPO).encode()).hexdigest()[:10]
+        hdir = os.path.join(BUILD, "harness-" + tagd)
+        out = os.path.join(BUILD, "owharness-" + tagd)
+    with Lock("gobuild-" + os.path.basename(out)):
+        if hdir != HARNESS:
+            shutil.rmtree(hdir, ignore_errors=True)
+            shutil.copytree(HARNESS, hdir)
+            gm = open(os.path.join(hdir, "go.mod")).read().replace("=> /repo", "=> " + os.path.realpath(REPO))
+            open(os.path.join(hdir, "go.mod"), "w").write(gm)
+        shutil.copyfile(os.path.join(REPO, "go.sum"), os.path.join(hdir, "go.sum"))
         t0 = time.time()
         tmp = out + ".%d" % os.getpid()
-        r = run(["go", "build", "-tags", tag, "-o", tmp, "./cmd/owharness"], cwd=HARNESS, env=GOENV)
+        r = run(["go", "build", "-tags", tag, "-o", tmp, "./cmd/owharness"], cwd=hdir, env=GOENV)
         if r.returncode != 0:
             return None, r.stderr
         os.replace(tmp, out)
